@@ -25,6 +25,7 @@ func genAll() {
 	genSaveSrc()
 	genAccess()
 	genResolveSrc()
+	genResolverSrc()
 }
 
 // ---------------------------------------------------------------------------------
